@@ -552,6 +552,83 @@ func (m *fsImpl) exec(line string) string {
 		}
 		_ = vfs.SetUMask(toFileMode(uint32(n)))
 		return "ok"
+	case "glob":
+		ms, err := vfs.Glob(p(0))
+		if err != nil {
+			return "err badpattern"
+		}
+		hx := make([]string, len(ms))
+		for i, x := range ms {
+			hx[i] = lib.Hex(m.out(x))
+		}
+		return "ok n " + strings.Join(hx, ",")
+	case "walk":
+		acts := []string{}
+		if a[1] != "-" {
+			acts = strings.Split(a[1], ",")
+		}
+		var vis []string
+		errStop := errors.New("stop")
+		ferr := vfs.WalkDir(p(0), func(path string, d fs.DirEntry, err error) error {
+			kind := 9
+			if d != nil {
+				switch {
+				case d.IsDir():
+					kind = 0
+				case d.Type()&fs.ModeSymlink != 0:
+					kind = 2
+				default:
+					kind = 1
+				}
+			}
+			es := "-"
+			if err != nil {
+				es = errName(err)
+			}
+			vis = append(vis, fmt.Sprintf("%s:%d:%s", lib.Hex(m.out(path)), kind, es))
+			act := "c"
+			if len(acts) > 0 {
+				act, acts = acts[0], acts[1:]
+			}
+			switch act {
+			case "d":
+				return filepath.SkipDir
+			case "a":
+				return filepath.SkipAll
+			case "e":
+				return errStop
+			}
+			return nil
+		})
+		fin := "none"
+		switch {
+		case ferr == nil:
+		case ferr == errStop:
+			fin = "fail"
+		case ferr == filepath.SkipAll:
+			fin = "skipall"
+		case ferr == filepath.SkipDir:
+			fin = "skipdir"
+		default:
+			fin = errName(ferr)
+		}
+		return "ok w " + strings.Join(vis, ";") + " " + fin
+	case "exists", "direxists", "isdir":
+		var b bool
+		var err error
+		switch f[2] {
+		case "exists":
+			b, err = avfs.Exists(vfs, p(0))
+		case "direxists":
+			b, err = avfs.DirExists(vfs, p(0))
+		default:
+			b, err = avfs.IsDir(vfs, p(0))
+		}
+		es := "-"
+		if err != nil {
+			es = errName(err)
+		}
+		return fmt.Sprintf("ok x %v %s", b, es)
 	case "file":
 		h, ok := m.handles[atoiS(a[0])]
 		if !ok {
